@@ -922,15 +922,9 @@ func (d *Decoder) DecodeNested(m interface{}) error {
 	if d.offset+n+nb > len(d.p) {
 		return io.ErrUnexpectedEOF
 	}
-	switch tv := m.(type) {
-	case Unmarshaler:
-		if err := tv.Unmarshal(d.p[d.offset+n : d.offset+n+nb]); err != nil {
-			return err
-		}
-	default:
-		if err := Unmarshal(d.p[d.offset+n:d.offset+n+nb], m); err != nil {
-			return err
-		}
+	// Unmarshal() replaces the contents of m (Unmarshal() methods generated by Gogo merge into them instead)
+	if err := Unmarshal(d.p[d.offset+n:d.offset+n+nb], m); err != nil {
+		return err
 	}
 	d.offset += n + nb
 	return nil
